@@ -11,8 +11,11 @@ sed -i "s|\"/repo/src/|\"$REPO/src/|" sim/shadow/lib.rs
 ./check build || exit 2
 PROPS=$(python3 -c "import json;print(' '.join(c['property_id'] for c in json.load(open('MANIFEST.json'))['checks']))")
 : > seeded/MATRIX.jsonl
+# optional file with one seed id per line that are already done (skipped)
+SKIP=${SEED_MATRIX_SKIP:-/dev/null}
 for d in seeded/*/; do
   id=$(basename $d)
+  grep -qx "$id" "$SKIP" 2>/dev/null && continue
   VERIF_MAX_MINIMISE=1 python3 tools/try_seed.py $d/patch.diff $PROPS 2>/dev/null | tail -1 | sed "s|^{|{\"seed\":\"$id\",|" >> seeded/MATRIX.jsonl
   echo "$id done"
 done
